@@ -687,7 +687,9 @@ def _inside(pm, node, scope) -> bool:
     return False
 
 
-@R.rule("C14-R4", floor=6, template="T-SIBLING/T-PATH",
+# floor 5 = the shape-independent instances (iteration check, deferral site, discard site, inline-keeps-pair, result
+# partition); the per-`continue` instances (2 today) exist only while the loop is written with `continue`
+@R.rule("C14-R4", floor=5, template="T-SIBLING/T-PATH",
         desc="in sort_tables_and_constraints a foreign key constraint is either rendered inline AND its ordering pair is "
              "kept, or deferred to ALTER AND its pair dropped: constraints that bypass the pair are deferred; the cycle "
              "handler defers the whole family <table>.foreign_key_constraints (not one constraint per pair), discards "
